@@ -17,12 +17,12 @@ from drivers import guards_driver
 from harness import common, tlc
 
 PROP = "C18"
-KEYS = ["sorted", "odd", "uhf", "mult_ok", "conv", "sp2", "exc", "nstates", "homog", "active", "com"]
+KEYS = ["sorted", "odd", "uhf", "mult_ok", "conv", "sp2", "exc", "nstates", "homog", "qmix", "active", "com"]
 
 
 def nfaults(q):
     return sum([q["sorted"] != "ok", (not q["uhf"]) and q["odd"], q["uhf"] and not q["mult_ok"], q["uhf"] and q["sp2"], q["uhf"] and q["conv"] == 2, q["uhf"] and q["exc"] != "none",
-                q["exc"] != "none" and not q["nstates"], q["exc"] == "bogus", q["exc"] == "rpa" and not q["homog"], q["exc"] == "cis" and not q["homog"] and (q["active"] > 0 or q["com"] != "nomd"), q["active"] > 0 and q["exc"] == "none", q["com"] in ("bogus", "ang", "lin", "", "near")])
+                q["exc"] != "none" and not q["nstates"], q["exc"] == "bogus", q["exc"] == "rpa" and not q["homog"], q["exc"] in ("cis", "rpa") and q["homog"] and q["qmix"], q["exc"] == "cis" and not q["homog"] and q["active"] > 0, q["active"] > 0 and q["exc"] == "none", q["com"] in ("bogus", "ang", "lin", "", "near")])
 
 
 def main(tier):
@@ -53,9 +53,9 @@ def main(tier):
             acc = [x for x in single if nfaults(x["req"]) == 0]
             one = [x for x in single if nfaults(x["req"]) == 1]
             # one canonical row per value of every fault coordinate (everything else valid and default) is always replayed
-            default = dict(sorted="ok", odd=False, uhf=False, mult_ok=True, conv=1, sp2=False, exc="none", nstates=True, homog=True, active=0, com="nomd")
+            default = dict(sorted="ok", odd=False, uhf=False, mult_ok=True, conv=1, sp2=False, exc="none", nstates=True, homog=True, qmix=False, active=0, com="nomd")
             variants = [dict(sorted=v) for v in ("reversed", "pad_front", "pad_middle")] + [dict(com=v) for v in ("bogus", "ang", "lin", "", "near")] + [dict(odd=True), dict(uhf=True, mult_ok=False),
-                        dict(uhf=True, sp2=True), dict(uhf=True, conv=2), dict(uhf=True, exc="cis"), dict(exc="cis", nstates=False), dict(exc="bogus"), dict(exc="rpa", homog=False), dict(active=1),
+                        dict(uhf=True, sp2=True), dict(uhf=True, conv=2), dict(uhf=True, exc="cis"), dict(exc="cis", nstates=False), dict(exc="bogus"), dict(exc="rpa", homog=False), dict(active=1), dict(exc="cis", qmix=True), dict(exc="rpa", qmix=True), dict(qmix=True), dict(exc="cis", qmix=True, com="none"),
                         dict(exc="cis", homog=False, active=1), dict(sorted="pad_front", homog=False), dict(com="ang", uhf=True)]
             bykey = {tuple(x["req"][k] for k in KEYS): x for x in rows}
             must = [bykey[tuple(dict(default, **v)[k] for k in KEYS)] for v in variants if tuple(dict(default, **v)[k] for k in KEYS) in bykey]
@@ -112,6 +112,8 @@ def main(tier):
             stress.append(o)
             if o["outcome"] == "returned" and not (o["finite"] or o["flagged"]):
                 rep.violation("nonfinite_result_without_flag", {"stress_case": case, "observed": o}, stress=case[0])
+            if o.get("expect") == "raise" and o["outcome"] == "returned":
+                rep.violation("unsupported_element_not_rejected", {"stress_case": case, "observed": o}, stress=case[0])
         cov = {
             "states": r.distinct + g.distinct,
             "transitions": r.generated + g.generated,
